@@ -945,6 +945,7 @@ void pivoted_fraction_free_gaussian_elimination(const DenseMatrix &A,
 
     unsigned col = A.col_, row = A.row_;
     unsigned index = 0, i, k, j;
+    RCP<const Basic> d;
     B.m_ = A.m_;
 
     for (i = 0; i < col - 1; i++) {
@@ -959,18 +960,18 @@ void pivoted_fraction_free_gaussian_elimination(const DenseMatrix &A,
             pl.push_back({k, index});
         }
 
-        for (j = i + 1; j < row; j++) {
+        for (j = index + 1; j < row; j++) {
             for (k = i + 1; k < col; k++) {
                 B.m_[j * col + k]
-                    = sub(mul(B.m_[i * col + i], B.m_[j * col + k]),
-                          mul(B.m_[j * col + i], B.m_[i * col + k]));
-                if (i > 0)
-                    B.m_[j * col + k]
-                        = div(B.m_[j * col + k], B.m_[i * col - col + i - 1]);
+                    = sub(mul(B.m_[index * col + i], B.m_[j * col + k]),
+                          mul(B.m_[j * col + i], B.m_[index * col + k]));
+                if (index > 0)
+                    B.m_[j * col + k] = div(B.m_[j * col + k], d);
             }
             B.m_[j * col + i] = zero;
         }
 
+        d = B.m_[index * col + i];
         index++;
     }
 }
